@@ -203,13 +203,24 @@ def Val.isNode : Val α → Bool
   | .node .. => true
   | _ => false
 
+/-- `Constant.trivially_zero` is `self.args[0] == 0`: a `Constant` built without arguments (`Constant()`, `Constant.fk('c')`) raises
+`TypeError` ('NoneType' is not subscriptable), one with an empty argument list `IndexError` -/
+def constErr : Val α → Option Err
+  | .node .const na args _ => if na then some .typeError else if args.isEmpty then some .indexError else none
+  | _ => none
+
 /-- the property `trivially_zero`: `Constant`: `args[0] == 0`; `_MulExpr`: `args[0].trivially_zero or args[1].trivially_zero`
 with every exception (an argument that is not an Expr, a missing argument) turned into `False`; otherwise `False`. -/
 def trivZero [NatCast α] [PyNum α] : Val α → Bool
   | .node .const _ (.num x :: _) _ => PyNum.beq x ((0 : Nat) : α)
   | .node .mul _ (a :: b :: _) _ =>
       match a with
-      | .node .. => if trivZero a then true else (match b with | .node .. => trivZero b | _ => false)
+      | .node .. =>
+          if constErr a != none then false            -- `Constant().trivially_zero` raises: caught by the try/except -> False
+          else if trivZero a then true
+          else (match b with
+                | .node .. => if constErr b != none then false else trivZero b
+                | _ => false)
       | _ => false
   | _ => false
 
@@ -225,6 +236,9 @@ def exprNeg (self : Val α) : Except Err (Val α) :=
 /-- `Expr.__add__` (l.485-489) -/
 def exprAdd [NatCast α] [PyNum α] (self other : Val α) : Except Err (Val α) := do
   let o ← conv other
+  match constErr o with          -- `_other.trivially_zero` of a Constant without arguments raises (outside a _MulExpr nothing catches it)
+  | some e => throw e
+  | none => pure ()
   if trivZero o then return self
   return .node .add false [self, o] none
 
@@ -241,19 +255,25 @@ def uwArg (self : Val α) : Except Err (Val α) :=
 
 /-- `Expr.__sub__` (l.491-494).  The test `other == other * 0` is `x == x*0` for a number and `s == ""` for a str.
 For an Expr it is always `False` (`other * 0` is one level deeper than `other`; `Expr.__eq__` compares classes and then
-arguments) — but `other * 0` IS evaluated: for a `MassAction` operand this is `UnaryWrapper.__mul__` with its checks
+arguments) — but `other * 0` IS evaluated, and so is the comparison of the first arguments of two `_MulExpr`s: for a `MassAction` operand this is `UnaryWrapper.__mul__` with its checks
 (`ValueError` when it has unique_keys, `TypeError` without args), and the comparison `MassAction == MassAction` runs
 `compare_equality(arg, _MulExpr(arg, 0))`, whose `arg + …` is `NotImplementedError` for a bare non-int/float number. -/
+def subShort [Mul α] [NatCast α] [PyNum α] (other : Val α) : Except Err Bool :=
+  match other with
+  | .num x => pure (PyNum.beq x (x * ((0 : Nat) : α)))
+  | .str s => pure (s == "")
+  | .node .massAction .. => do
+      match ← uwArg other with
+      | .num x => if PyNum.isScalar x then pure false else throw Err.notImplemented
+      | _ => pure false
+  | .node .mul false [.num x, _] _ =>
+      -- `other * 0` is again a two-argument `_MulExpr`: `Expr.__eq__` compares the first arguments with
+      -- `compare_equality(x, other)`, whose `x + other` is `NotImplementedError` for a bare non-int/float number
+      if PyNum.isScalar x then pure false else throw Err.notImplemented
+  | _ => pure false
+
 def exprSub [Mul α] [NatCast α] [PyNum α] (self other : Val α) : Except Err (Val α) := do
-  let short ← match other with
-    | .num x => pure (PyNum.beq x (x * ((0 : Nat) : α)))
-    | .str s => pure (s == "")
-    | .node .massAction .. => do
-        match ← uwArg other with
-        | .num x => if PyNum.isScalar x then pure false else throw Err.notImplemented
-        | _ => pure false
-    | _ => pure false
-  if short then return self
+  if ← subShort other then return self
   return .node .sub false [self, ← conv other] none
 
 def Val.isMassAction : Val α → Bool
@@ -654,6 +674,6 @@ instance : PyNum Float where
     let r := Float.exp x
     if r.isInf && !x.isInf then .error .overflow else .ok r
   log10 x := if x ≤ 0 then .error .valueError else .ok (Float.log10 x)
-  sin x := .ok (Float.sin x)
+  sin x := if x.isInf then .error .valueError else .ok (Float.sin x)      -- math.sin(±inf): ValueError (math domain error)
 
 end ChemModel.PyExpr
